@@ -246,7 +246,9 @@ class ParseMCNPCell:
             elif 'trcl' in elt:
                 keywords['trcl'] = self.parse_trcl_kw(elt, kw_list)
             elif 'u' in elt:
-                keywords['u'] = int(float(kw_list.pop()))
+                # U=-n is universe n (the minus sign is only a hint that the
+                # cell is not truncated by the boundary of the filled cell)
+                keywords['u'] = abs(int(float(kw_list.pop())))
             elif 'rho' in elt:
                 # only relevant for LIKE n BUT cells
                 keywords['density'] = kw_list.pop()
